@@ -214,7 +214,9 @@ static TypeInfo& getType(const std::string& spec) {
                     size_t j = kv.second.find('|', i);
                     if (j == std::string::npos) j = kv.second.size();
                     s += "<xs:enumeration value=\"";
-                    xmlEscape(s, kv.second.substr(i, j - i));
+                    std::string ev = kv.second.substr(i, j - i);
+                    for (char& ch : ev) if (ch == '~') ch = ' ';       // '~' stands for a space inside an enumeration value
+                    xmlEscape(s, ev);
                     s += "\"/>";
                     i = j + 1;
                 }
